@@ -108,15 +108,15 @@ Proof. vm_compute. repeat split. Qed.
 
 (* the key the cache files a template under is what Model/Cache.v transcribes: getShard of both caches, statement by
    statement, REGENERATED from the source (Gen/CacheKey.v).  key = address || big-endian 16-bit id (injective: cache_key_inj
-   above), shard = FNV-1-32(key) mod shardNo, map key = hex(key).  Any edit of getShard breaks this equality. *)
+   above), shard = FNV-1-32(key) mod shardNo, map key = hex(key).  Any edit of getShard that changes what it computes breaks this equality. *)
 From VF Require Gen.CacheKey.
+(* what getShard RETURNS, read symbolically from its statements (helpers of the file inlined, the two ways of appending a
+   big-endian 16-bit id recognised, anything else left as an opaque `?...` term): exactly the transcribed shard and map key *)
 Definition get_shard_transcribed : list string :=
-  ["func(id uint16, addr net.IP) (*TemplatesShard, string)"; "b := make([]byte, 2)"; "binary.BigEndian.PutUint16(b, id)";
-   "key := append(addr, b...)"; "hash := fnv.New32()"; "hash.Write(key)"; "hSum32 := hash.Sum32()";
-   "return m[uint(hSum32)%uint(shardNo)], hex.EncodeToString(key)"]%string.
-Theorem C04_get_shard_is_the_transcribed_one : forall p l, In (p, l) Gen.CacheKey.get_shard_src -> l = get_shard_transcribed.
+  ["m[Mod(FNV1_32(Concat(addr,BE16(id))),shardNo)]"; "Hex(Concat(addr,BE16(id)))"]%string.
+Theorem C04_get_shard_is_the_transcribed_one : forall p l, In (p, l) Gen.CacheKey.get_shard_sem -> l = get_shard_transcribed.
 Proof.
-  intros p l Hin. unfold Gen.CacheKey.get_shard_src in Hin. cbn [In] in Hin.
+  intros p l Hin. unfold Gen.CacheKey.get_shard_sem in Hin. cbn [In] in Hin.
   repeat (destruct Hin as [Hin|Hin]; [injection Hin as _ <-; reflexivity|]). contradiction.
 Qed.
 Print Assumptions C04_get_shard_is_the_transcribed_one.
